@@ -5,8 +5,9 @@
    on, every snapshot satisfies [no_overwrite] and [plain], the visited states are [key_faithful];
    the invariant [cache_sound]); proofs in theories/Build_c01_proofs.v.  The digest H is
    idealised as injective. *)
-From Coq Require Import List Ascii.
-From Grog Require Import Str Label HashKey Build Build_ideal Build_c01_proofs.
+From Coq Require Import List Ascii String.
+From Grog Require Import Str Label HashKey HashKey_proofs Build Build_ideal Build_c01_proofs.
+Local Open Scope string_scope.
 Import ListNotations.
 
 (* after any admissible history, a build leaves at every declared output of every target that
@@ -110,3 +111,41 @@ Theorem C01_guards_nonvacuous :
     br_status r = [TExecuted; THit; THit] /\ br_ok r = true.
 Proof. exact c01_guards_nonvacuous. Qed.
 Print Assumptions C01_guards_nonvacuous.
+
+(* the guard [plain] (every target cacheable) stays: the ideal semantics has no clause for no-cache targets.
+   The witness that used to make it necessary -- finding C01-F3: a no-cache dependency n (outputs ox, oy,
+   maintained outside the build) whose two outputs exchange their contents kept its output hash, so the key
+   of its dependant d did not change and d was served stale bytes -- no longer goes through: the no-cache
+   output hash pairs every digest with its output, n's output hash changes with the swap, d's key changes,
+   d is re-executed in the second build and its output is not the one of the first build *)
+Theorem C01_nocache_swap_changes_key :
+  map br_status (sy_log (run_history idH sw_ops)) = [[TExecuted; TExecuted]; [TExecuted; TExecuted]] /\
+  rt_ohash (get_rt (sw_state 3) 0) <> rt_ohash (get_rt (sw_state 6) 0) /\
+  rt_key (get_rt (sw_state 3) 1) <> rt_key (get_rt (sw_state 6) 1) /\
+  rt_key (get_rt (sw_state 3) 1) <> None /\
+  ws_get (lit "p/od") (w_ws (sy_world (run_history idH sw_ops))) <>
+  ws_get (lit "p/od") (w_ws (sy_world (run_history idH (firstn 4 sw_ops)))).
+Proof. exact nocache_swap_changes_key. Qed.
+Print Assumptions C01_nocache_swap_changes_key.
+
+(* ... whereas a hash of the sorted content digests alone (the formula before the repair) cannot tell the
+   two states apart, for any digest function *)
+Theorem C01_digests_only_hash_blind : forall (H : str -> str) (a b : str),
+  H (join comma (sort_strs [a; b])) = H (join comma (sort_strs [b; a])).
+Proof. exact digests_only_hash_blind. Qed.
+Print Assumptions C01_digests_only_hash_blind.
+
+(* what is hashed per output, "<output definition>=<digest>", determines the output and the digest as soon as
+   digests contain no '=' (hex digests, "sha256:<hex>" image ids), whatever the output identifier contains;
+   so two different outputs exchanging two different contents change the sorted list that is hashed *)
+Theorem C01_nocache_item_injective : forall d1 g1 d2 g2 : str,
+  ~ In ch_eq g1 -> ~ In ch_eq g2 ->
+  nocache_item (d1, g1) = nocache_item (d2, g2) -> d1 = d2 /\ g1 = g2.
+Proof. exact nocache_item_inj. Qed.
+Print Assumptions C01_nocache_item_injective.
+
+Theorem C01_nocache_swap_changes_items : forall d1 d2 g1 g2 : str,
+  ~ In ch_eq g1 -> ~ In ch_eq g2 -> d1 <> d2 -> g1 <> g2 ->
+  ~ Permutation (map nocache_item [(d1, g1); (d2, g2)]) (map nocache_item [(d1, g2); (d2, g1)]).
+Proof. exact nocache_item_swap_differs. Qed.
+Print Assumptions C01_nocache_swap_changes_items.
